@@ -192,6 +192,8 @@ def run():
     # random larger inputs
     for i in range(300 if QUICK else 30000):
         a = gen.random_abstract(rng, N=rng.randint(1, 8), K=rng.randint(1, 6), max_edges=14)
+        if i % 3 == 2:       # node ids in no particular order (ids carry no meaning: parents with smaller ids than children, samples anywhere)
+            a = gen.permute_nodes(a, random.Random(SEED * 1000003 + i))
         samples = [u for u in range(len(a["time"])) if a["flags"][u]]
         th = rng.choice([1, 1, 2, 3])
         tracked = sorted(rng.sample(samples, rng.randint(0, len(samples)))) if samples else []
